@@ -225,15 +225,33 @@ def StageReference(dataReference,  # type: experiment.model.graph.DataReference
                 #Add / to dest to avoid commonprefix issue where /usr/var matches /usr/var2
                 #(due to charactwise matching performed)
                 target = os.path.join(os.path.realpath(dest), '')
-                for f in tar.getmembers():
-                    newPath = os.path.join(location.path, f.name)
+
+                def is_under_target(path):
+                    # VV: realpath() collapses `..` and follows the links which already exist under location
+                    path = os.path.join(os.path.realpath(path), '')
                     #if target includes / then commonprefix will include it
-                    if os.path.commonprefix([target, newPath]) != target:
+                    return os.path.commonprefix([target, path]) == target
+
+                for f in tar.getmembers():
+                    newPath = os.path.join(target, f.name)
+                    contained = is_under_target(newPath)
+                    if contained and f.issym():
+                        # VV: A symbolic link is relative to the directory that holds it
+                        contained = is_under_target(os.path.join(os.path.dirname(newPath), f.linkname))
+                    elif contained and f.islnk():
+                        # VV: A hard link is relative to the root of the archive
+                        contained = is_under_target(os.path.join(target, f.linkname))
+                    if contained is False:
                         raise tarfile.ReadError('Archive contains files that would be extracted outside of destination')
 
-                tar.extractall(dest)
+                if hasattr(tarfile, 'data_filter'):
+                    # VV: The filter checks every member again right before it is extracted (i.e. when the links that
+                    # earlier members of the archive created exist) and raises a tarfile.FilterError (a TarError)
+                    tar.extractall(dest, filter='data')
+                else:
+                    tar.extractall(dest)
                 tar.close()
-    except (shutil.Error, tarfile.ReadError, OSError) as stageError:
+    except (shutil.Error, tarfile.TarError, OSError) as stageError:
         raise experiment.model.errors.DataReferenceCouldNotStageError(dataReference, stageError)
 
 
